@@ -61,11 +61,11 @@ def drive(case):
 
 def phase(c, tier):
     q = tier == 'quick'
-    inv = ['ArgNonEmpty', 'NoBraceArg', 'NothingLost', 'TextKept', 'RecoveryMarks']
+    inv = ['ArgNonEmpty', 'NoBraceArg', 'NothingLost', 'TextKept', 'RecoveryMarks', 'LangKept']
     cfg = tlc.cfg_text(constants={'MaxToks': 4 if q else 5, 'MaxArgs': 2}, invariants=inv, properties=['Terminates'])
-    c.tlc('Args.tla: all token buffers of <= %d tokens x argument codes (never empty, no brace as argument, nothing lost, termination)' % (4 if q else 5), 'Args', cfg, timeout=3000)
+    c.tlc('Args.tla: all token buffers of <= %d tokens x argument codes (never empty, no brace as argument, nothing lost, termination)' % (4 if q else 5), 'Args', cfg, timeout=3000, extra=('-lncheck', 'final'))
     cfg = tlc.cfg_text(constants={'MaxToks': 3 if q else 4, 'MaxArgs': 2}, invariants=inv + ['Dump'])
-    r = c.tlc('Args.tla: scenarios for replay', 'Args', cfg, timeout=3000)
+    r = c.tlc('Args.tla: scenarios for replay', 'Args', cfg, timeout=3000, extra=('-lncheck', 'final'))
     scen = r.json('@@')
     c.rng.shuffle(scen)
     cases = [dict(id='ar%d' % k, toks=s['toks'], codes=s['codes']) for k, s in enumerate(scen[:8000 if q else 100000])]
